@@ -57,6 +57,16 @@ type vStatusEnv struct {
 	cfgPath string
 	saves   int64
 	fenceNo int
+	// a persistent topic that only the configuration file of an "earlier run" holds: read at start-up, published by nobody in this
+	// process until inheritedChecks histories have been checked with it (after that the generators may publish the topic)
+	inherited       map[string]any
+	inheritedChecks int
+}
+
+// vHoldBack: the generators do not publish an inherited topic before it has been checked a few times.
+func (e *vStatusEnv) holdBack(tag string) bool {
+	_, inh := e.inherited[tag]
+	return inh && e.inheritedChecks < 8
 }
 
 var vSE vStatusEnv
@@ -82,7 +92,19 @@ func vStatusSetup(tier string) {
 	home, _ := os.UserHomeDir()
 	os.MkdirAll(filepath.Join(home, ".dastard"), 0o755)
 	e.cfgPath = filepath.Join(home, ".dastard", "config.yaml")
-	os.WriteFile(e.cfgPath, []byte("verbose: false\n"), 0o644)
+	// the file an earlier run left behind: it holds trigger settings (dastard publishes TRIGGER only while a source runs, so a run
+	// that never starts one saves its configuration without ever publishing that topic)
+	inh := []FullTriggerState{{ChannelIndices: []int{0, 1, 2}}}
+	inh[0].AutoTrigger, inh[0].AutoDelay = true, 250*time.Millisecond
+	inh[0].LevelTrigger, inh[0].LevelRising, inh[0].LevelLevel = true, true, 4321
+	viper.Reset()
+	viper.Set("verbose", false)
+	viper.Set("trigger", inh)
+	if err := viper.WriteConfigAs(e.cfgPath); err != nil {
+		e.err = err
+		return
+	}
+	e.inherited = map[string]any{"TRIGGER": inh}
 	viper.Reset()
 	viper.SetConfigFile(e.cfgPath)
 	if err := viper.ReadInConfig(); err != nil {
@@ -248,6 +270,12 @@ func vRunReplay(c *vCase) {
 			c.Cov("republished_values", 1)
 		} else {
 			tag := vStatusTags[r.Intn(len(vStatusTags))]
+			for e.holdBack(tag) {
+				tag = vStatusTags[r.Intn(len(vStatusTags))]
+			}
+			if _, inh := e.inherited[tag]; inh {
+				delete(e.inherited, tag) // published in this process from now on
+			}
 			u = ClientUpdate{tag, vGenStatusValue(c, tag)}
 		}
 		prev = append(prev, u)
@@ -538,6 +566,12 @@ func vRunPersist(c *vCase) {
 	c.Describe("persist: %d updates seed %d idx %d", n, c.Seed, c.Idx)
 	for i := 0; i < n; i++ {
 		tag := vPersistTags[r.Intn(len(vPersistTags))]
+		for e.holdBack(tag) {
+			tag = vPersistTags[r.Intn(len(vPersistTags))]
+		}
+		if _, inh := e.inherited[tag]; inh {
+			delete(e.inherited, tag) // published in this process from now on
+		}
 		if vChance(r, 0.2) {
 			tag = vPick(r, "ALIVE", "TRIGGERRATE", "CHANNELNAMES", "SYNTH1") // traffic that must not disturb the save
 			clientMessageChan <- ClientUpdate{tag, vGenStatusValue(c, tag)}
@@ -551,6 +585,15 @@ func vRunPersist(c *vCase) {
 		}
 		if vChance(r, 0.1) {
 			time.Sleep(40 * time.Millisecond) // let a save happen in the middle of the history
+		}
+	}
+	// what the configuration file held when the program started and nobody has published since is still the latest value of its
+	// topic: the saves of this run must keep it
+	for tag, val := range e.inherited {
+		if _, published := want[tag]; !published && len(want) > 0 {
+			want[tag] = val
+			e.inheritedChecks++
+			c.Cov("persist_histories_with_a_topic_from_an_earlier_run", 1)
 		}
 	}
 	// fence so that everything has been taken by the updater; then wait for the next save to complete
@@ -1250,7 +1293,7 @@ func init() {
 		Setup: vStatusSetup,
 		Run:   vRunStatus,
 		Meta: vMeta{Level: "fault_enumeration",
-			Rule: "four case families. replay: 1-3 goroutines push 5-60 updates (the real topics with values of the real persisted types, synthetic topics, 25 % republished earlier values) into the real RunClientUpdater, then FENCE_A, SENDALL, FENCE_B; the SUB socket's record is the linearisation and the replay between the fences must contain every topic published so far in this process exactly once with its latest body (NEWDASTARD, which the code documents as stateless, excepted). persist: 3-25 updates of the persistent topics (plus unchanged republications and non-persistent traffic), then the file written by the real saveState (delay 25 ms via hook) is read back by a fresh viper with UnmarshalKey into the start-up types and compared with the latest values (source configurations, record lengths, trigger settings except edge-multi, output base path, map file). crash: a child process saves version 1 twice, changes all persistent topics and is SIGKILLed by the hook at one of the five points between saveState's file-system steps (or not at all), and, with strace as the injector, on entry to each file-system call (openat, write, close, unlinkat, linkat, renameat) the final save makes; the parent checks that ~/.dastard/config.yaml exists, is non-empty, parses and equals version 1 or version 2 completely; non-trivial = case completed; after half of the syscall kills and a third of the early hook kills the real program is also started on a copy of the directory the kill left behind",
+			Rule: "four case families. replay: 1-3 goroutines push 5-60 updates (the real topics with values of the real persisted types, synthetic topics, 25 % republished earlier values) into the real RunClientUpdater, then FENCE_A, SENDALL, FENCE_B; the SUB socket's record is the linearisation and the replay between the fences must contain every topic published so far in this process exactly once with its latest body (NEWDASTARD, which the code documents as stateless, excepted). persist: 3-25 updates of the persistent topics (plus unchanged republications and non-persistent traffic), then the file written by the real saveState (delay 25 ms via hook) is read back by a fresh viper with UnmarshalKey into the start-up types and compared with the latest values (source configurations, record lengths, trigger settings except edge-multi, output base path, map file). crash: a child process saves version 1 twice, changes all persistent topics and is SIGKILLed by the hook at one of the five points between saveState's file-system steps (or not at all), and, with strace as the injector, on entry to each file-system call (openat, write, close, unlinkat, linkat, renameat) the final save makes; the parent checks that ~/.dastard/config.yaml exists, is non-empty, parses and equals version 1 or version 2 completely; non-trivial = case completed; after half of the syscall kills and a third of the early hook kills the real program is also started on a copy of the directory the kill left behind; the configuration file the process starts from holds trigger settings of an earlier run (TRIGGER is published only while a source runs): until that topic is first published in the process, every persist history also requires the saved file to still hold them",
 			Assumptions: []string{"libzmq delivers in order on one connection and loses nothing once the subscription is established (receive high-water mark 0)", "a process kill, not a power loss: data written before the kill are in the page cache",
 				"edge-multi settings are documented as not restored", "NEWDASTARD is an announcement the code documents as not stored"},
 			Guards: map[string]map[string]int{
